@@ -1198,7 +1198,7 @@ func main() {
 	run.Assume("error precedence inside one instruction follows operand order from the top of the stack (each operand is validated when it is taken)")
 	run.Assume("LSHIFT is read as a 256-bit register shift (bits shifted out are lost before the < 2^255 check); occurrences are counted in obs_lshift_bits_lost_but_result_accepted, not asserted against")
 	run.Assume("the predicate of CHECKPREDICATE may run expansion opcodes even in a version-1 transaction (observed behaviour, counted, not asserted against)")
-	run.Assume("a predicate hands back min(its unused run limit + memory of its data stack + memory of its alt stack, its limit + memory of the items moved to it), also when it aborts: the execution cost is charged first, operands are taken in order from the top and are gone, the rest is left alone. Open point: an instruction that aborts on its final memory charge may or may not hold its unpaid result; both readings are computed and the implementation's gas must lie between them (checkpredicate_predicate_ends counts those cases); inside a nested predicate that ambiguity ends the gas comparison")
+	run.Assume("a predicate hands back min(its unused run limit + memory of its data stack + memory of its alt stack, its limit + memory of the items moved to it), also when it stops by VERIFY, FAIL or for lack of run limit (the operands the aborted instruction had taken are gone, the rest is left alone); after the other aborts (underflow, bad value, range, ...) gas is not compared: whether operands already taken have been refunded at that moment is not documented. Open point: an instruction that aborts on its final memory charge may or may not hold its unpaid result; both readings are computed and the implementation's gas must lie between them (checkpredicate_predicate_ends counts those cases); inside a nested predicate that ambiguity ends the gas comparison")
 	run.Finish()
 }
 
